@@ -319,6 +319,12 @@ def main():
             % (pid, o['name'], o['status']))
     for r in bad_units:
         log('PROOF-LOST property=%s unit=%s %s: %s' % (pid, r['unit'], r['status'], r['why'][:200]))
+        if r['status'] == 'crash':
+            try:
+                with open(os.path.join(HERE, 'evidence', '.crash_%s.log' % pid), 'a') as f:
+                    f.write('%s [%s]\n%s\n\n' % (r['unit'], r.get('case'), r['why']))
+            except OSError:
+                pass
     for path, f, suffix in violations:
         log('VIOLATION property=%s replay=%s%s' % (pid, path, suffix))
         what = f.get('what') if isinstance(f, dict) and 'what' in f else f.get('name')
